@@ -79,7 +79,7 @@ View == <<ts, n>>
 Emit == IF Dump THEN PrintT(ToJson([pre |-> ts, op |-> op', post |-> ts'])) ELSE TRUE
 
 -----------------------------------------------------------------------------
-Inserting == {"wrap_offset", "wrap_pattern", "mark_occurrence", "mark_position", "mark_range", "mark_content", "mark_element", "mark_first_child"}
+Inserting == {"wrap_offset", "wrap_pattern", "mark_occurrence", "mark_position", "mark_range", "mark_content", "mark_element", "mark_first_child", "move_end"}
 
 (* C09: an insertion never alters the readable text *)
 TextPreserved == [][ op'.op \in Inserting => Decode(ts') = Decode(ts) ]_vars
